@@ -891,6 +891,7 @@ def rule_capture_src(ctx):
     kb = ctx.body("board::piece::Kind::get_moveset")
     flt = ix.closures_of("board::piece::Kind::get_moveset")
     okf = False
+    decided = False
     from . import cases
     for cb in flt:
         if cb.arg_count != 2:
@@ -921,10 +922,13 @@ def rule_capture_src(ctx):
                     break
             if not good:
                 break
+        decided = decided or not run.overflow
         if good and n_cases == 192:
             okf = True
             ctx.functions.add(cb.key)
-    for cb in flt if not okf else ():
+    # (the textual reading is only a fall-back for a predicate the walk could not evaluate at all; a predicate that was
+    # evaluated and gave a wrong answer for some coordinates is wrong)
+    for cb in flt if not okf and not decided else ():
         txt = mir.dump_body(cb)
         okf = okf or (txt.count("8_u8") >= 4 and "start" in txt and "dest" in txt)
     ctx.check(okf, "Kind::get_moveset:on-board-filter", "generated moves are filtered to ranks/files < 8 and start != dest", kb.where(0), bad_what="the on-board filter of Kind::get_moveset changed")
